@@ -62,10 +62,10 @@ COSTS: Dict[str, Dict[str, Optional[Tuple[Tuple[float, ...], int, Dict[str, Any]
     "csv": {"std": None,
             "shipped": ((1, 0, 1, 0, 0), 3, {}),                        # evaluations/evaluate_csv.py
             "tests": None},                     # test_solver.py::test_csv_rows_equal_length_simpler
-    "xml": {"std": None,
+    "xml": {"std": None, "default": None,
             "shipped": ((10, 0, 6, 0, 13), 4, {}),                      # evaluations/evaluate_xml.py
             "tests": ((9.5, 0, 6, 0, 13), 4, {})},                      # test_solver.py::test_xml_with_prefixes
-    "rest": {"std": None,
+    "rest": {"std": None, "default": None,
              "shipped": ((7, 1.5, 2.5, 2, 18), 4,
                          {"reset_coverage_after_n_round_with_no_coverage": 1500}),  # evaluate_rest.py
              "tests": ((7, 1.5, 2.5, 2, 18), 4,
@@ -88,9 +88,9 @@ PLAN = {
         "csv": {"std": (["colno"], 2, 150, 110), "shipped": (["colno"], 2, 150, 110),
                 "tests": (["colno"], 1, 60, 110)},
         "tar": {"std": (["all"], 2, 20, 110), "shipped": (["all"], 2, 20, 110)},
-        "xml": {"std": (["wf+ns+redef"], 2, 150, 110), "shipped": (["wf+ns+redef"], 2, 150, 110),
-                "tests": (["wf+ns+redef"], 1, 60, 110)},
-        "rest": {"std": (["all"], 8, 300, 110), "shipped": (["all"], 2, 150, 110),
+        "xml": {"std": (["wf+ns+redef"], 2, 150, 110), "default": (["wf+ns+redef"], 2, 150, 110),
+                "shipped": (["wf+ns+redef"], 2, 150, 110), "tests": (["wf+ns+redef"], 1, 60, 110)},
+        "rest": {"std": (["all"], 4, 300, 110), "default": (["all"], 8, 400, 110), "shipped": (["all"], 2, 150, 110),
                  "tests": (["all"], 1, 60, 110)},
     },
     "thorough": {
@@ -100,7 +100,7 @@ PLAN = {
         "xml": {"std": (["wf+ns+redef", "wf+ns+redef", "wf+ns+redef", "wf", "ns", "redef"], 6, 500, 270),
                 "shipped": (["wf+ns+redef", "wf+ns+redef", "wf+ns+redef", "wf", "ns", "redef"], 6, 500, 270),
                 "tests": (["wf+ns+redef"], 4, 150, 270)},
-        "rest": {"std": (["all"], 32, 600, 270), "shipped": (["all"], 6, 600, 270),
+        "rest": {"std": (["all"], 12, 600, 270), "default": (["all"], 32, 600, 270), "shipped": (["all"], 6, 600, 270),
                  "tests": (["all"], 4, 150, 270)},
     },
 }
@@ -280,6 +280,8 @@ def _build(formalization: str, variant: str, cost: str, timeout: int):
                   enforce_unique_trees_in_queue=False)
     else:
         raise ValueError(formalization)
+    if cost == "default":
+        kw = {}                 # ISLaSolver(grammar, constraint): the solver's own default settings
     if cost == "tests":
         # the configuration of the shipped test-suite (tests/test_solver.py)
         kw.update({"csv": dict(max_number_free_instantiations=1, max_number_smt_instantiations=2),
@@ -491,7 +493,7 @@ def _texts(rep, tier: str) -> None:
              "non-trivial (checksum + field widths always apply). Plus hand-written sanity inputs "
              "(valid and invalid per rule) that the validators must judge as expected.")
     plan = PLAN[tier]
-    rep.bound("tier %s: %s; configurations: std = solver default cost settings STD_COST_SETTINGS with "
+    rep.bound("tier %s: %s; configurations: default = ISLaSolver(grammar, constraint) without any setting; std = solver default cost settings STD_COST_SETTINGS with "
               "the solver settings of evaluations/evaluate_*.py (TAR: of test_simple_tar), shipped = "
               "same settings with the cost vector/k of evaluations/evaluate_*.py, tests = settings and "
               "cost vector of tests/test_solver.py; sampled, not exhaustive" % (
